@@ -62,11 +62,19 @@ def gen(rng, tier, info):
             buflen = rng.choice([bpp, bpp + 1, 2 * bpp + 1, 7, 64, 61, 512, 511])
             cap = buflen // bpp
             count = rng.choice([1, cap, cap + 1, 2 * cap + 1, 3 * cap, rng.range(1, 3 * cap + 2)])
+            # the stream between the two fills: the same colour throughout, or starting with it and continuing with others
+            # (whatever the stream leaves in the transfer buffer must not leak into the second fill)
+            if rng.chance(1, 2):
+                stream = [px] * count
+            else:
+                stream = [px] + [enc(fmt, False, rng.range(0, cmax)) for _ in range(rng.choice([1, 2, cap, cap + 1, 2 * cap]))]
+            count2 = count if rng.chance(1, 2) else rng.range(1, count)
+            flat = lambda l: " ".join(" ".join(map(str, q)) for q in l)
             calls_r = ["c 44 0", "r %d %d %s" % (bpp, count, " ".join(map(str, px))),
-                       "c 44 0", "p %d %d %s" % (bpp, count, " ".join(" ".join(map(str, px)) for _ in range(count))),
-                       "c 44 0", "r %d %d %s" % (bpp, count, " ".join(map(str, px)))]
+                       "c 44 0", "p %d %d %s" % (bpp, len(stream), flat(stream)),
+                       "c 44 0", "r %d %d %s" % (bpp, count2, " ".join(map(str, px)))]
             calls_c = ["SCmd 44 []", "SRep %d %s %d" % (bpp, zl(px), count), "SCmd 44 []",
-                       "SPx %d [%s]" % (bpp, ";".join(zl(px) for _ in range(count))), "SCmd 44 []", "SRep %d %s %d" % (bpp, zl(px), count)]
+                       "SPx %d [%s]" % (bpp, ";".join(zl(q) for q in stream)), "SCmd 44 []", "SRep %d %s %d" % (bpp, zl(px), count2)]
             line = "spi %d 50000 %s" % (buflen, " ".join(calls_r))
             coq = "C5Spi {| Corr.C06.sc_buflen := %d; Corr.C06.sc_calls := [%s] |}" % (buflen, "; ".join("Corr.C06." + c for c in calls_c))
             cases.append(vlib.Case(line, coq, rng.choice(["db", "rb"]), tags=["spi-fill-vs-stream", "fmt%d" % fmt], nontrivial=count > cap))
